@@ -5,7 +5,7 @@
   correspondence harness `harness/c01.py` runs against `batchie.data.Screen(...)` on every check.
   Lists, names, doses, arity and the control name are arbitrary everywhere.
 -/
-import Batchie.Lemmas.EncodeAccept
+import Batchie.Lemmas.EncodeAudit
 
 namespace Batchie.Props.C01
 open Batchie.Screen Batchie.Proto
@@ -329,6 +329,118 @@ theorem C01_space_bounds_fresh (r : Raw) (s : Screen) (h : mk? r = .ok s) (ht : 
     (∀ id ∈ s.sids, 0 ≤ id ∧ id < (nUniqueSamples s.smap : Int)) :=
   C01_space_bounds r s h (fun m hm => by rw [ht] at hm; cases hm) (fun m hm => by rw [hs] at hm; cases hm)
 
+/-! ### statements at the level of the screen's cells and rows (added by the audit) -/
+
+/-- **Control sentinel, supplied mapping.** Also in a screen built with a treatment mapping that batchie produced under the
+    screen's control name for any data (the quantifier's "mapping for a superset"), a cell's id is `-1` exactly when its
+    name is the control name or its dose is not positive. -/
+theorem C01_control_iff_supplied (r : Raw) (s : Screen) (h : mk? r = .ok s) (data : List (Name × Dose))
+    (ht : r.tmap = some (freshTMap r.ctrl data))
+    (i c : Nat) (hi : i < s.tnames.length) (hc : c < s.arity) :
+    ∃ (h1 : c < s.tnames[i].length) (h2 : i < s.tdoses.length) (h3 : c < s.tdoses[i].length)
+      (h4 : i < s.tids.length) (h5 : c < s.tids[i].length),
+      (s.tids[i][c] = -1 ↔ (s.tnames[i][c] = s.ctrl ∨ s.tdoses[i][c] ≤ 0)) := by
+  obtain ⟨h1, h2, h3, h4, h5, hmem⟩ := C01_decode r s h i c hi hc
+  refine ⟨h1, h2, h3, h4, h5, ?_⟩
+  have m := (mk?_ok_iff r s).mp h
+  rw [(C01_supplied_verbatim r s h).1 _ ht] at hmem
+  rw [m.ctrl_eq]
+  exact C01_control_iff_table r.ctrl data _ hmem
+
+/-- **Equal ids iff equal (name, dose), cell against cell.** In every built screen whose treatment mapping batchie produced
+    (fresh, or supplied for a superset): two cells with the same (name, dose) carry the same id, and two cells that share a
+    non-control id have the same (name, dose). -/
+theorem C01_cell_ids_eq_iff (r : Raw) (s : Screen) (h : mk? r = .ok s) (hM : IsBatchieTMap s.tmap)
+    (i c j d : Nat) (hi : i < s.tnames.length) (hc : c < s.arity) (hj : j < s.tnames.length) (hd : d < s.arity) :
+    ∃ (a1 : c < s.tnames[i].length) (a2 : i < s.tdoses.length) (a3 : c < s.tdoses[i].length)
+      (a4 : i < s.tids.length) (a5 : c < s.tids[i].length)
+      (b1 : d < s.tnames[j].length) (b2 : j < s.tdoses.length) (b3 : d < s.tdoses[j].length)
+      (b4 : j < s.tids.length) (b5 : d < s.tids[j].length),
+      ((s.tnames[i][c] = s.tnames[j][d] ∧ s.tdoses[i][c] = s.tdoses[j][d]) → s.tids[i][c] = s.tids[j][d]) ∧
+      (s.tids[i][c] ≠ -1 → s.tids[i][c] = s.tids[j][d] →
+        (s.tnames[i][c] = s.tnames[j][d] ∧ s.tdoses[i][c] = s.tdoses[j][d])) := by
+  obtain ⟨a1, a2, a3, a4, a5, hm1⟩ := C01_decode r s h i c hi hc
+  obtain ⟨b1, b2, b3, b4, b5, hm2⟩ := C01_decode r s h j d hj hd
+  refine ⟨a1, a2, a3, a4, a5, b1, b2, b3, b4, b5, ?_, ?_⟩
+  · rintro ⟨hn, hdose⟩
+    obtain ⟨ctrl, data, hM⟩ := hM
+    have hnd : (s.tmap.map tKey).Nodup := by rw [hM, freshTMap_keys]; exact sortedKeys_nodup data
+    rw [← hn, ← hdose] at hm2
+    exact tmap_id_unique s.tmap hnd (s.tnames[i][c], s.tdoses[i][c]) _ _ hm1 hm2
+  · intro hnc hid
+    obtain ⟨ctrl, data, hM⟩ := hM
+    rw [hM] at hm1 hm2
+    exact (C01_treat_inj ctrl data _ _ hm1 hm2 hnc).mp hid
+
+/-- **The non-control ids used by the cells are the whole dense range.** In a screen built without a supplied treatment
+    mapping an integer occurs as a non-control id of some cell iff it lies in `0 … n_unique_treatments - 1`: no gap, nothing
+    beyond (the table-level statement is `C01_treat_dense`; with a supplied superset mapping only `⊆` holds, `C01_space_bounds`). -/
+theorem C01_cells_dense_fresh (r : Raw) (s : Screen) (h : mk? r = .ok s) (hfresh : r.tmap = none) (x : Int) :
+    (x ≠ -1 ∧ ∃ row ∈ s.tids, x ∈ row) ↔ (0 ≤ x ∧ x < (nUniqueTreatments s.tmap : Int)) := by
+  have m := (mk?_ok_iff r s).mp h
+  have htm : s.tmap = freshTMap r.ctrl (allKeys r) := (C01_supplied_verbatim r s h).2.2.1 hfresh
+  rw [htm, C01_treat_count]
+  constructor
+  · rintro ⟨hne, row, hrow, hx⟩
+    obtain ⟨e, he, rfl⟩ := m.tid_mem row hrow x hx
+    rw [htm] at he
+    exact (freshTMap_id_mem_iff r.ctrl (allKeys r) e.2.2).mp ⟨List.mem_map.mpr ⟨e, he, rfl⟩, hne⟩
+  · intro hx
+    obtain ⟨hmem, hne⟩ := (freshTMap_id_mem_iff r.ctrl (allKeys r) x).mpr hx
+    refine ⟨hne, ?_⟩
+    obtain ⟨e, he, rfl⟩ := List.mem_map.mp hmem
+    have hkey : tKey e ∈ allKeys r := by
+      rw [← mem_sortedKeys, ← freshTMap_keys r.ctrl]; exact List.mem_map.mpr ⟨e, he, rfl⟩
+    obtain ⟨i, c, hi, hc, hcell⟩ := allKeys_mem_cell r m.len_tdoses m.arity_tnames m.arity_tdoses _ hkey
+    obtain ⟨_, _, _, h4, h5, hdec⟩ := m.cell_decode i c hi hc
+    have hnd : (s.tmap.map tKey).Nodup := by rw [htm, freshTMap_keys]; exact sortedKeys_nodup _
+    have he' : ((tKey e).1, (tKey e).2, e.2.2) ∈ s.tmap := by rw [htm]; exact he
+    rw [hcell] at he'
+    have := tmap_id_unique s.tmap hnd _ _ _ hdec he'
+    exact ⟨s.tids[i], List.getElem_mem h4, this ▸ List.getElem_mem h5⟩
+
+/-- ids of a fresh one-column encoding (samples, plates): exactly `0 … (number of distinct names) - 1`, all of them used -/
+theorem fresh1d_ids_dense (xs : List Name) (ids : List Int) (sm : SMap) (h : encode1d xs none = .ok (ids, sm)) (x : Int) :
+    x ∈ ids ↔ (0 ≤ x ∧ x < (nUniqueSamples sm : Int)) := by
+  have hf := encode1d_fresh xs
+  rw [hf] at h
+  injection h with h
+  injection h with h1 h2
+  subst h1 h2
+  have hlen : (xs.map (sId (freshSMap xs))).length = xs.length := by simp
+  constructor
+  · intro hx
+    obtain ⟨j, hj, rfl⟩ := List.getElem_of_mem hx
+    have hj' : j < xs.length := by rw [← hlen]; exact hj
+    have := encode1d_decode xs none _ _ hf hlen j hj'
+    exact freshSMap_id_lt xs _ this
+  · rintro ⟨h0, h1⟩
+    rw [nUniqueSamples_freshSMap] at h1
+    have hk : x.toNat < (sortedNames xs).length := by omega
+    have hmem : ((sortedNames xs)[x.toNat], x) ∈ freshSMap xs := by
+      rw [mem_freshSMap]; exact ⟨x.toNat, hk, by simp; omega⟩
+    have hin : (sortedNames xs)[x.toNat] ∈ xs := (mem_sortedNames xs _).mp (List.getElem_mem hk)
+    obtain ⟨j, hj, hjx⟩ := List.getElem_of_mem hin
+    have hdec := encode1d_decode xs none _ _ hf hlen j hj
+    rw [hjx] at hdec
+    have hnd : ((freshSMap xs).map (·.1)).Nodup := by rw [freshSMap_names]; exact sortedNames_nodup xs
+    have := inj_of_nodup_map (·.1) _ hnd _ _ hdec hmem rfl
+    have hid : (xs.map (sId (freshSMap xs)))[j]'(hlen ▸ hj) = x := (Prod.mk.inj this).2
+    rw [← hid]; exact List.getElem_mem _
+
+/-- **Sample ids and plate ids used by the rows are the dense range `0 … n-1`** (samples: when no sample mapping is
+    supplied; plates: always — the plate table is always fresh) -/
+theorem C01_row_ids_dense (r : Raw) (s : Screen) (h : mk? r = .ok s) (x : Int) :
+    (r.smap = none → (x ∈ s.sids ↔ (0 ≤ x ∧ x < (nUniqueSamples s.smap : Int)))) ∧
+    (x ∈ s.pids ↔ (0 ≤ x ∧ x < (nUniqueSamples s.pmap : Int))) := by
+  have m := (mk?_ok_iff r s).mp h
+  constructor
+  · intro hs
+    have := m.senc
+    rw [hs] at this
+    exact fresh1d_ids_dense r.snames s.sids s.smap this x
+  · exact fresh1d_ids_dense r.pnames s.pids s.pmap m.penc x
+
 /-! ### construction succeeds where it should -/
 
 /-- without supplied mappings every well-shaped input (equal lengths, rows of length `arity`, plate-uniform mask)
@@ -390,5 +502,11 @@ example : ∃ k ∈ exRaw.snames, k ∉ ([([7], 0)] : SMap).map (·.1) := ⟨[5]
 example : ([1, 5, 2, 7, 9] : List Nat).Nodup ∧
     renumber ([1, 5, 2, 7, 9].map (fun x => decide (x % 2 = 1))) = [-1, -1, 0, -1, -1] := by decide
 example : renumber [false, true, false, false, true, false] = [0, -1, 1, 2, -1, 3] := by decide
+
+/-- hypotheses of `C01_control_iff_supplied` / `C01_cell_ids_eq_iff`: `exRawSup` carries a mapping batchie produced under the
+    screen's own control name `[100]` for a strict superset, and it is accepted -/
+example : exRawSup.tmap = some (freshTMap exRawSup.ctrl (allKeys exRaw ++ [([9], 4)])) := rfl
+example : ∃ s, mk? exRaw = .ok s ∧ IsBatchieTMap s.tmap ∧ exRaw.tmap = none ∧ exRaw.smap = none :=
+  ⟨_, C01_fresh_accepted exRaw exRaw_wellShaped rfl rfl, ⟨_, _, rfl⟩, rfl, rfl⟩
 
 end Batchie.Props.C01
